@@ -83,3 +83,18 @@ package concurrent_map
 //@   requires m != nil
 //@   loop 0:
 //@     invariant m != nil
+
+// rangeDo: the callback sees only keys that are present; it may replace or delete the entry it is
+// shown, nothing else changes, the shard stays within its maximum (monitor invariant at unlock).
+//@ func paramfn:rangeDo.f
+//@   ensures setV ==> valOK(newV)
+//@ func (m *shard) rangeDo [C11]
+//@   requires m != nil
+//@   loop 0:
+//@     invariant m.m == atlock(m.m) && m.m != nil && m.max == atlock(m.max) && 0 <= len(m.m) && len(m.m) <= atlock(len(m.m))
+//@     invariant forall k int :: (k in m.m) ==> (k in atlock(m.m)) && valOK(m.m[k])
+
+//@ func (m *Map) RangeDo [C11]
+//@   requires m != nil
+//@   loop 0:
+//@     invariant m != nil
